@@ -387,3 +387,51 @@ def compat_checks_rule(ctx, rule):
         pt = [s for s in iter_child_stmts(w.body) if isinstance(s, ast.If) and 'partition_on' in norm(s.test) and 'pf.cats' in norm(s.test)]
         ctx.ob(rule, 'writer.write:partitioning-comparison-is-ordered-equality',
                len(pt) == 1 and norm(pt[0].test) == 'tuple(partition_on) != tuple(pf.cats)', norm(pt[0].test) if pt else '', wr.loc(w))
+
+
+def open_close_pairing_rule(ctx, rule):
+    """every file opened for writing on the route is context-managed, so close() (which flushes and can
+    fail) runs before the function returns and its failure propagates"""
+    wr = ctx.repo['writer']
+    n = 0
+    for q in ('write_multi', 'partition_on_columns', 'write_common_metadata', 'write_simple'):
+        f = wr.func(q)
+        withs = [s for s in iter_child_stmts(f.body) if isinstance(s, ast.With)]
+        managed_exprs = [it.context_expr for w in withs for it in w.items]
+        for k, c in fx.direct_effects(f):
+            if k != 'OPEN' or not fx.writable(fx.mode_of(c)):
+                continue
+            n += 1
+            ok = any(c is e for e in managed_exprs)
+            if not ok:
+                # of = open_with(fn, mode); with of as f:
+                asg = [s for s in iter_child_stmts(f.body) if isinstance(s, ast.Assign) and s.value is c and isinstance(s.targets[0], ast.Name)]
+                ok = bool(asg) and any(isinstance(e, ast.Name) and e.id == asg[0].targets[0].id for e in managed_exprs)
+            ctx.ob(rule, 'writer.%s:file-opened-for-writing-is-context-managed:%s' % (q, norm(c.args[0]) if c.args else '?'), ok,
+                   '`%s` must be the subject of a `with`: an unmanaged handle is closed by the garbage collector, where a '
+                   'failing flush/close is swallowed and the append still reports success' % norm(c)[:60], wr.loc(c))
+    ctx.floor(rule, 'writable OPEN sites', n, 4)
+    mp = wr.func('make_part_file')
+    w = [s for s in mp.body if isinstance(s, ast.With) and norm(s.items[0].context_expr) == 'f']
+    ctx.ob(rule, 'writer.make_part_file:handle-closed-before-returning', len(w) == 1,
+           'make_part_file closes the handle it was given (`with f as f:`) before the row group is recorded', wr.loc(mp))
+
+
+def single_pass_data_rule(ctx, rule):
+    """`data` may be a one-shot iterable of frames: it is iterated once, by the writer that consumes it"""
+    api, wr = ctx.repo['api'], ctx.repo['writer']
+    f = api.func('ParquetFile.write_row_groups')
+    its = []
+    for n in ast.walk(f):
+        if isinstance(n, (ast.For, ast.comprehension)) and 'data' in {x.id for x in ast.walk(n.iter) if isinstance(x, ast.Name)} \
+                and not norm(n.iter).startswith('data.columns') and 'sorted(data.columns)' not in norm(n.iter):
+            its.append(norm(n.iter))
+        if isinstance(n, ast.Call) and callee(n) in ('list', 'tuple', 'iter', 'next', 'len', 'sum', 'any', 'all') and n.args and norm(n.args[0]) == 'data':
+            its.append(norm(n))
+    ctx.ob(rule, 'api.write_row_groups:data-not-consumed-before-the-writers', not its,
+           'iterations over `data` before it is handed to write_simple/write_multi: %s (a generator of frames would be '
+           'exhausted and nothing written, yet the summary rewritten)' % (its or 'none'), api.loc(f))
+    for q in ('write_multi', 'write_simple'):
+        g = wr.func(q)
+        loops = [norm(n.iter) for n in ast.walk(g) if isinstance(n, ast.For) and 'data' in {x.id for x in ast.walk(n.iter) if isinstance(x, ast.Name)}]
+        ctx.ob(rule, 'writer.%s:data-iterated-exactly-once' % q, len(loops) == 1 and loops[0] == 'enumerate(data)', str(loops), wr.loc(g))
